@@ -11,9 +11,12 @@ DATA = [0, 1, 5, 7, 13, 255, 0x7FFFFFFF, 0x80000000, 0xFFFFFFFF, 0x100000001]
 class C19(Prop):
     id = "C19"
     title = "Cross-thread notifications are never lost or merged; shutdown terminates"
-    lean_modules = ["NV.C19.Props", "NV.C19.Global", "NV.C19.Witness"]
+    lean_modules = ["NV.C19.Props", "NV.C19.Global", "NV.C19.Witness", "NV.C19.Negative"]
     theorems = ["NV.C19.model_satisfies_spec", "NV.C19.posts_delivered_exactly_once", "NV.C19.posts_multiset_preserved",
-                "NV.C19.post_refused_only_when_full", "NV.C19.no_lost_wakeup", "NV.C19.posted_completion_wakes_next_wait",
+                "NV.C19.post_refused_only_when_full", "NV.C19.no_lost_wakeup",
+                "NV.C19.createProg_eq", "NV.C19.wrapper_stores_eq", "NV.C19.wait_order_eq", "NV.C19.post_order_eq",
+                "NV.C19.join_poll_eq", "NV.C19.state_eventually_stopped_after_proc_returns",
+                "NV.C19.timed_join_returns_true_after_stop", "NV.C19.posted_completion_wakes_next_wait",
                 "NV.C19.queue_fifo_exactly_once", "NV.C19.queue_drop_policy", "NV.C19.queue_dequeue_oldest",
                 "NV.C19.timed_join_bounded", "NV.C19.timed_join_progress",
                 "NV.C19.timer_stop_terminates", "NV.C19.timer_stop_reaches_join", "NV.C19.no_callback_after_stop"]
@@ -22,7 +25,9 @@ class C19(Prop):
                         "NV.C19.Old.eventfd_loses_zero_post", "NV.C19.Old.posts_delivered_partial",
                         "NV.C19.Old.join_enters_pthread_join_early", "NV.C19.Old.not_timedJoinBoundedFull",
                         "NV.C19.Old.join_hangs",
-                        "NV.C19.Swapped.wakeup_erased", "NV.C19.Swapped.next_wait_sleeps", "NV.C19.Swapped.not_noLostWakeup"]
+                        "NV.C19.Swapped.wakeup_erased", "NV.C19.Swapped.next_wait_sleeps", "NV.C19.Swapped.not_noLostWakeup",
+                        "NV.C19.LateStore.state_stuck_running", "NV.C19.LateStore.stuck_forever",
+                        "NV.C19.LateStore.join_times_out", "NV.C19.LateStore.not_stateStopped"]
     consts = [("completionRingSize", "COMPLETION_RING_SIZE"),
               ("queueDropOldest", "ASYNC_QUEUE_DROP_OLDEST"),
               ("queueBlockWriter", "ASYNC_QUEUE_BLOCK_WRITER"),
@@ -31,7 +36,8 @@ class C19(Prop):
               ("timerErrAlreadyActive", "TIMER_ERR_ALREADY_ACTIVE"),
               ("timerErrInvalidInterval", "TIMER_ERR_INVALID_INTERVAL"),
               ("workerStopped", "ASYNC_WORKER_STOPPED"),
-              ("workerRunning", "ASYNC_WORKER_RUNNING")]
+              ("workerRunning", "ASYNC_WORKER_RUNNING"),
+              ("workerStopping", "ASYNC_WORKER_STOPPING")]
     # the ring size is a #define private to the epoll back end: the probe includes the .c file itself
     const_headers = ["lib/async/async_runtime_epoll.c", "lib/async/async_queue.h", "lib/async/async_worker.h",
                      "lib/port/timer.h"]
@@ -64,6 +70,100 @@ class C19(Prop):
                    "(open known finding C19-heart-beat-flag-race); the full backend() loop is not run under ThreadSanitizer",
                    "eventfd counter overflow after 2^64-2 un-waited doorbell writes",
                    "several writers blocked at once on a BLOCK_WRITER queue are exercised only by the multi-thread runs"]
+
+    # ---- translator: ORDER of the state stores relative to the spawn / the user procedure -------------------
+    STATE_NAMES = {"ASYNC_WORKER_STOPPED": "workerStopped", "ASYNC_WORKER_RUNNING": "workerRunning",
+                   "ASYNC_WORKER_STOPPING": "workerStopping"}
+
+    def _function_body(self, src, name, site):
+        import re
+        from nvlib import extract as X
+        m = re.search(r"\b%s\s*\([^;{]*\)\s*\{" % re.escape(name), src)
+        if not m:
+            raise X.TieBroken(site, "function %s not found in lib/async/async_worker_pthread.c" % name)
+        i, depth = m.end(), 1
+        while i < len(src) and depth:
+            depth += {"{": 1, "}": -1}.get(src[i], 0)
+            i += 1
+        body = src[m.end():i - 1]
+        body = re.sub(r"/\*.*?\*/", " ", body, flags=re.S)
+        return re.sub(r"//[^\n]*", " ", body)
+
+    def _stores_around(self, body, call_re, site):
+        """state stores (as Gen constant names) before / after the first match of call_re, in source order"""
+        import re
+        from nvlib import extract as X
+        calls = list(re.finditer(call_re, body))
+        if len(calls) != 1:
+            raise X.TieBroken(site, "expected exactly one `%s` call, found %d" % (call_re, len(calls)))
+        before, after = [], []
+        for m in re.finditer(r"->\s*state\s*=(?!=)\s*([^;]+);", body):
+            rhs = m.group(1).strip()
+            if rhs not in self.STATE_NAMES:
+                raise X.TieBroken(site, "unrecognised value stored into ->state: `%s`" % rhs)
+            (before if m.start() < calls[0].start() else after).append(self.STATE_NAMES[rhs])
+        return before, after
+
+    def gen_extra(self, ctx, bdir):
+        src = open(os.path.join(E.REPO, "lib/async/async_worker_pthread.c")).read()
+        cb, ca = self._stores_around(self._function_body(src, "async_worker_create", "order:async_worker_create"),
+                                     r"\bpthread_create\s*\(", "order:async_worker_create")
+        wb, wa = self._stores_around(self._function_body(src, "worker_thread_proc", "order:worker_thread_proc"),
+                                     r"->\s*proc\s*\(", "order:worker_thread_proc")
+        fmt = lambda l: "[" + ", ".join(l) + "]"
+        import re
+        from nvlib import extract as X
+
+        def body_of(path, name, site):
+            m = re.search(r"\b%s\s*\([^;{]*\)\s*\{" % re.escape(name), path)
+            if not m:
+                raise X.TieBroken(site, "function %s not found" % name)
+            i, depth = m.end(), 1
+            while i < len(path) and depth:
+                depth += {"{": 1, "}": -1}.get(path[i], 0)
+                i += 1
+            b = re.sub(r"/\*.*?\*/", " ", path[m.end():i - 1], flags=re.S)
+            return re.sub(r"//[^\n]*", " ", b)
+
+        def pos(body, pat, site, which=0):
+            ms = list(re.finditer(pat, body))
+            if not ms:
+                raise X.TieBroken(site, "`%s` not found" % pat)
+            return ms[which].start()
+        ep = open(os.path.join(E.REPO, "lib/async/async_runtime_epoll.c")).read()
+        wb_ = body_of(ep, "async_runtime_wait", "order:async_runtime_wait")
+        rd = pos(wb_, r"\bread\s*\(\s*runtime->event_fd", "order:async_runtime_wait")
+        lk = pos(wb_, r"pthread_mutex_lock\s*\(\s*&runtime->ring_lock", "order:async_runtime_wait")
+        ul = pos(wb_, r"pthread_mutex_unlock\s*\(\s*&runtime->ring_lock", "order:async_runtime_wait", -1)
+        rearm = pos(wb_, r"\bwrite\s*\(\s*runtime->event_fd", "order:async_runtime_wait")
+        pb_ = body_of(ep, "async_runtime_post_completion", "order:async_runtime_post_completion")
+        push = pos(pb_, r"ring_count\s*\+\+", "order:async_runtime_post_completion")
+        bell = pos(pb_, r"\bwrite\s*\(\s*runtime->event_fd", "order:async_runtime_post_completion")
+        jb_ = body_of(src, "async_worker_join", "const:async_worker_join")
+        m1 = re.search(r"struct\s+timespec\s+\w+\s*=\s*\{\s*(\d+)\s*,\s*(\d+)\s*\}", jb_)
+        m2 = re.search(r"elapsed_ms\s*\+=\s*(\d+)\s*;", jb_)
+        if not m1 or not m2:
+            raise X.TieBroken("const:async_worker_join", "poll sleep / elapsed step of the timed join not recognised")
+        b = lambda v: "true" if v else "false"
+        return "\n".join([
+            "/-- C: in `async_runtime_wait` the doorbell `read(event_fd)` stands before `pthread_mutex_lock(&ring_lock)` -/",
+            "def waitReadsBellBeforeLock : Bool := " + b(rd < lk),
+            "/-- C: in `async_runtime_wait` the re-arm `write(event_fd)` stands before the last `pthread_mutex_unlock` -/",
+            "def waitRearmsUnderLock : Bool := " + b(lk < rearm < ul),
+            "/-- C: in `async_runtime_post_completion` the push (`ring_count++`) stands before the doorbell `write(event_fd)` -/",
+            "def postPushesBeforeBell : Bool := " + b(push < bell),
+            "/-- C: `struct timespec sleep_time = { s, ns }` of the timed join, in ns -/",
+            "def joinSleepNs : Nat := %d" % (int(m1.group(1)) * 10 ** 9 + int(m1.group(2))),
+            "/-- C: `elapsed_ms += N` of the timed join -/",
+            "def joinElapsedStepMs : Nat := %d" % int(m2.group(1)),
+            "/-- C: values stored into `worker->state` in `async_worker_create` BEFORE the `pthread_create` call, in order -/",
+            "def createStoresBeforeSpawn : List Nat := " + fmt(cb),
+            "/-- C: values stored into `worker->state` in `async_worker_create` AFTER the `pthread_create` call, in order -/",
+            "def createStoresAfterSpawn : List Nat := " + fmt(ca),
+            "/-- C: values stored into `worker->state` in `worker_thread_proc` before `worker->proc(...)` is called -/",
+            "def wrapperStoresBeforeProc : List Nat := " + fmt(wb),
+            "/-- C: values stored into `worker->state` in `worker_thread_proc` after `worker->proc(...)` returned -/",
+            "def wrapperStoresAfterProc : List Nat := " + fmt(wa)])
 
     # ---- build / run -----------------------------------------------------
     def prepare(self, ctx):
@@ -147,6 +247,10 @@ class C19(Prop):
         # confirmed defect 2 (repaired): timed join before the thread stored RUNNING
         mk("join-before-running", ["wnew 1 hold", "wstate 1", "wjoin 1 50", "wrelease 1", "wstop 1", "wstep 1", "wjoin 1 50",
                                    "wstate 1", "wdestroy 1"])
+        # the creator-side window: a short-lived worker finishes inside the creator's pthread_create call
+        mk("short-lived-worker", ["wnew 1 race", "wstate 1", "wjoin 1 50", "wstate 1", "wdestroy 1"])
+        mk("short-lived-worker-stop", ["wnew 1 race", "wstop 1", "wjoin 1 0", "wjoin 1 -1", "wdestroy 1", "wnew 2 race", "wrelease 2",
+                                       "wstep 2", "wquit 2", "wjoin 2 -1", "wstate 2"])
         mk("join-zero-timeout", ["wnew 1 hold", "wjoin 1 0", "wrelease 1", "wjoin 1 0", "wstop 1", "wjoin 1 15", "wstep 1",
                                  "wjoin 1 0", "wdestroy 1"])
         mk("stop-before-start", ["wnew 2 hold", "wstop 2", "wjoin 2 20", "wrelease 2", "wstep 2", "wjoin 2 -1", "wdestroy 2"])
@@ -245,7 +349,7 @@ class C19(Prop):
             w = rng.range(1, nw)
             if w not in made:
                 made.add(w)
-                L.append("wnew %d %s" % (w, rng.choice(["hold", "hold", "run"])))
+                L.append("wnew %d %s" % (w, rng.choice(["hold", "hold", "run", "race"])))
                 if rng.chance(1, 2):
                     L.append("wjoin %d %d" % (w, rng.choice([0, 5, 10, 15, 25, 50])))
                 continue
